@@ -22,8 +22,18 @@ pub enum Op {
     Freeze,
     /// start_col = first dense column if `from_u`, else 0
     AddRows { dest: usize, src: usize, from_u: bool },
-    NzCols { row: usize },
-    SubRow { row: usize },
+    /// start = None: first dense column (admissible on both back-ends); Some(c): any column
+    /// (dense back-end only: the sparse one documents start_col == first dense column)
+    NzCols {
+        row: usize,
+        #[serde(default)]
+        start: Option<usize>,
+    },
+    SubRow {
+        row: usize,
+        #[serde(default)]
+        start: Option<usize>,
+    },
     Get { i: usize, j: usize },
     Resize { nh: usize, nw: usize },
     Sweep,
@@ -86,8 +96,20 @@ impl Model {
         (a..b).all(|i| self.c[i][col] != C::U)
     }
 
-    /// Is `op` inside the admissible envelope in the current model state?
+    /// Is `op` inside the envelope of at least one back-end (mutations: of both)?
     fn admissible(&self, op: &Op) -> bool {
+        if is_query(op) {
+            self.admissible_for(op, true) || self.admissible_for(op, false)
+        } else {
+            self.admissible_for(op, true) && self.admissible_for(op, false)
+        }
+    }
+
+    /// Is `op` inside the admissible envelope of the dense (`dense_impl`) / sparse back-end in the
+    /// current model state? Queries have a wider envelope on the dense back-end, whose methods
+    /// implement the trait for every column range; the sparse back-end documents its restrictions
+    /// with unimplemented!() / asserts.
+    fn admissible_for(&self, op: &Op, dense_impl: bool) -> bool {
         let fd = self.first_dense();
         match *op {
             Op::Set { i, j, .. } => !self.indexed && i < self.h && j < self.w,
@@ -110,15 +132,21 @@ impl Model {
                     })
             }
             Op::CountOnes { row, a, b } | Op::RowIter { row, a, b } => {
-                row < self.h && a <= b && b <= self.w - self.dense.max(1).min(self.w) && self.defined(row, a, b)
+                // never the full width (see DESIGN: end_col = w is outside any documented contract)
+                let lim = if dense_impl { self.w.saturating_sub(1) } else { self.w - self.dense.max(1).min(self.w) };
+                row < self.h && a <= b && b <= lim && self.defined(row, a, b)
             }
             Op::OnesInCol { col, a, b } => {
-                self.indexed
-                    && col < fd
-                    && !self.dirty[col]
-                    && a <= b
-                    && b <= self.h
-                    && self.col_defined(col, a, b)
+                if dense_impl {
+                    col < self.w && a <= b && b <= self.h && self.col_defined(col, a, b)
+                } else {
+                    self.indexed
+                        && col < fd
+                        && !self.dirty[col]
+                        && a <= b
+                        && b <= self.h
+                        && self.col_defined(col, a, b)
+                }
             }
             Op::Freeze => self.indexed && fd > 1,
             Op::AddRows { dest, src, from_u } => {
@@ -137,9 +165,10 @@ impl Model {
                     true
                 }
             }
-            Op::NzCols { row } | Op::SubRow { row } => {
-                row < self.h && self.dense > 0 && self.defined(row, fd, self.w)
-            }
+            Op::NzCols { row, start } | Op::SubRow { row, start } => match start {
+                None => row < self.h && self.dense > 0 && self.defined(row, fd, self.w),
+                Some(c) => dense_impl && row < self.h && c <= self.w && self.defined(row, c, self.w),
+            },
             Op::Get { i, j } => i < self.h && j < self.w && self.c[i][j] != C::U,
             Op::Resize { nh, nw } => {
                 !self.indexed
@@ -151,6 +180,13 @@ impl Model {
             Op::Sweep => true,
         }
     }
+}
+
+fn is_query(op: &Op) -> bool {
+    matches!(
+        op,
+        Op::CountOnes { .. } | Op::RowIter { .. } | Op::OnesInCol { .. } | Op::NzCols { .. } | Op::SubRow { .. } | Op::Get { .. } | Op::Sweep
+    )
 }
 
 #[derive(Debug, PartialEq)]
@@ -240,7 +276,8 @@ fn apply_impl<M: BinaryMatrix>(m: &mut M, md: &Model, op: &Op, dense_impl: bool)
             m.add_assign_rows(dest, src, if from_u { fd } else { 0 });
             Out::None
         }
-        Op::NzCols { row } => {
+        Op::NzCols { row, start } => {
+            let fd = start.unwrap_or(fd);
             let r = m.query_non_zero_columns(row, fd);
             let mut r2 = vec![9usize; 2];
             m.query_non_zero_columns_into(row, fd, &mut r2);
@@ -250,7 +287,8 @@ fn apply_impl<M: BinaryMatrix>(m: &mut M, md: &Model, op: &Op, dense_impl: bool)
             // the interface returns them in increasing column order on both back-ends
             Out::Cols(r)
         }
-        Op::SubRow { row } => {
+        Op::SubRow { row, start } => {
+            let fd = start.unwrap_or(fd);
             let v = m.get_sub_row_as_octets(row, fd);
             if v.len() != md.w - fd {
                 return Out::Bits(vec![0xEE]);
@@ -355,8 +393,20 @@ fn apply_model(md: &mut Model, op: &Op, probes: &mut Counters) -> Out {
             }
             Out::None
         }
-        Op::NzCols { row } => Out::Cols((fd..md.w).filter(|&j| md.c[row][j] == C::O).collect()),
-        Op::SubRow { row } => Out::Bits((fd..md.w).map(|j| (md.c[row][j] == C::O) as u8).collect()),
+        Op::NzCols { row, start } => {
+            if start.is_some() {
+                probes.inc("dense_only_query");
+            }
+            let fd = start.unwrap_or(fd);
+            Out::Cols((fd..md.w).filter(|&j| md.c[row][j] == C::O).collect())
+        }
+        Op::SubRow { row, start } => {
+            if start.is_some() {
+                probes.inc("dense_only_query");
+            }
+            let fd = start.unwrap_or(fd);
+            Out::Bits((fd..md.w).map(|j| (md.c[row][j] == C::O) as u8).collect())
+        }
         Op::Get { i, j } => Out::Bit(md.c[i][j] == C::O),
         Op::Resize { nh, nw } => {
             md.c.truncate(nh);
@@ -464,8 +514,13 @@ pub fn execute(hist: &History, probes: &mut Counters, states: Option<&mut HashSe
         }
         executed += 1;
         kinds.str(op_kind(op));
-        let expected_pre_dense = guarded(|| apply_impl(&mut d, &md, op, true));
-        let expected_pre_sparse = guarded(|| apply_impl(&mut s, &md, op, false));
+        let adm_d = md.admissible_for(op, true);
+        let adm_s = md.admissible_for(op, false);
+        let expected_pre_dense = if adm_d { Some(guarded(|| apply_impl(&mut d, &md, op, true))) } else { None };
+        let expected_pre_sparse = if adm_s { Some(guarded(|| apply_impl(&mut s, &md, op, false))) } else { None };
+        if adm_d != adm_s {
+            probes.inc("query_on_one_backend_only");
+        }
         let expected = apply_model(&mut md, op, probes);
         if let Some(st) = states.as_deref_mut() {
             let mut dg = Digest::new();
@@ -476,6 +531,7 @@ pub fn execute(hist: &History, probes: &mut Counters, states: Option<&mut HashSe
             st.insert(dg.finish64());
         }
         for (name, got) in [("dense", expected_pre_dense), ("sparse", expected_pre_sparse)] {
+            let Some(got) = got else { continue };
             match got {
                 Err(p) => {
                     return Err(Failure {
@@ -641,7 +697,8 @@ pub fn generate(seed: u64) -> History {
                 push!(&mut md, &mut ops, Op::SwapCols { i, j, hint });
             }
             2 | 3 => {
-                let lim = md.w - md.dense.max(1).min(md.w);
+                // mostly inside the common envelope; sometimes up to the dense back-end's own limit
+                let lim = if r.chance(1, 4) { md.w.saturating_sub(1) } else { md.w - md.dense.max(1).min(md.w) };
                 let row = r.usize_below(md.h);
                 let a = r.usize_below(lim + 1);
                 let b = match r.below(4) {
@@ -655,8 +712,8 @@ pub fn generate(seed: u64) -> History {
                     push!(&mut md, &mut ops, Op::RowIter { row, a, b });
                 }
             }
-            4 if md.indexed && fd > 0 => {
-                let col = r.usize_below(fd);
+            4 if (md.indexed && fd > 0) || r.chance(1, 3) => {
+                let col = if md.indexed && fd > 0 && !r.chance(1, 5) { r.usize_below(fd) } else { r.usize_below(md.w) };
                 let a = if r.chance(1, 2) { 0 } else { r.usize_below(md.h + 1) };
                 let b = if r.chance(1, 2) { md.h } else { a + r.usize_below(md.h + 1 - a) };
                 push!(&mut md, &mut ops, Op::OnesInCol { col, a, b });
@@ -680,10 +737,11 @@ pub fn generate(seed: u64) -> History {
             }
             10 => {
                 let row = r.usize_below(md.h);
+                let start = if r.chance(1, 3) || md.dense == 0 { Some(r.usize_below(md.w + 1)) } else { None };
                 if r.chance(1, 2) {
-                    push!(&mut md, &mut ops, Op::NzCols { row });
+                    push!(&mut md, &mut ops, Op::NzCols { row, start });
                 } else {
-                    push!(&mut md, &mut ops, Op::SubRow { row });
+                    push!(&mut md, &mut ops, Op::SubRow { row, start });
                 }
             }
             11 if !md.indexed => {
@@ -901,6 +959,8 @@ pub fn run(ctx: &Ctx) -> i32 {
         "swap_col_with_itself",
         "swap_cols_with_row_hint",
         "row_add_in_indexed_mode",
+        "dense_only_query",
+        "query_on_one_backend_only",
     ] {
         probes.touch(k);
     }
@@ -928,7 +988,7 @@ pub fn run(ctx: &Ctx) -> i32 {
                 "stub_components": ["reference bit-array model (oracle)", "history generator"],
             }),
             assumptions: vec![
-                "admissible envelope read off the only client (the solver): h >= w, hint >= 1, at least one 1 in the sparse region before the index is built, range queries end at or before the dense tail (and never at the full width), freeze only the last sparse column while >= 2 sparse columns remain, indexed-mode row addition from column 0 only with a single-one source row whose pivot the destination holds".into(),
+                "mutations: admissible envelope read off the only client (the solver); queries: per back-end (the dense back-end implements every column range, the sparse one only what it does not reject with unimplemented!()/asserts); h >= w, hint >= 1, at least one 1 in the sparse region before the index is built, range queries end at or before the dense tail (and never at the full width), freeze only the last sparse column while >= 2 sparse columns remain, indexed-mode row addition from column 0 only with a single-one source row whose pivot the destination holds".into(),
                 "cells left of start_col after a partial row addition are undefined and excluded".into(),
             ],
             wall_s: wall,
